@@ -266,6 +266,20 @@ void infra_exit(const std::string & msg)
     _exit(3);
 }
 
+// An exception that leaves the code under test while a case executes (the oracles catch the ones a contract allows) is a
+// result of that case, not an infrastructure problem.
+template <class F>
+Verdict guarded(F && f)
+{
+    try {
+        return f();
+    } catch (const rc::GenerationFailure &) {
+        throw;   // rapidcheck's own control flow
+    } catch (const std::exception & e) {
+        return std::string("an exception escaped the operations of this case: ") + e.what();
+    }
+}
+
 void add_inst(std::string name, std::function<void()> campaign, std::function<Verdict(const json &)> replay)
 {
     insts().push_back({std::move(name), std::move(campaign), std::move(replay)});
@@ -278,7 +292,7 @@ void run_explicit_json(const std::string & inst, const std::function<json()> & d
         j["inst"] = inst;
         return j;
     });
-    Verdict v = run();
+    Verdict v = guarded(run);
     if (v) {
         json j = dump();
         j["inst"] = inst;
@@ -320,7 +334,7 @@ void rc_campaign_json(const std::string & inst, int cases, int max_size, rc::Gen
             json c = *gen;
             c["inst"] = inst;
             CaseScope sc([&] { return c; });
-            Verdict v = run(c);
+            Verdict v = guarded([&] { return run(c); });
             if (v) {
                 last_fail = std::make_pair(c, *v);
                 stats().shrinking = true;   // everything after the first failure is shrinking
@@ -430,7 +444,7 @@ int harness_main(int argc, char ** argv)
                 CaseScope sc([&] { return c; });
                 for (bool raised : {false, true}) {
                     ambient_fp_flags(raised);
-                    Verdict v = in.replay(c);
+                    Verdict v = guarded([&] { return in.replay(c); });
                     if (v) {
                         fail_exit(c, *v);
                     }
